@@ -105,7 +105,7 @@ pub fn run(ctx: &mut Ctx) {
         let input: Vec<u8> = seq.iter().flat_map(|t| toks[*t].iter().copied()).collect();
         for (macros, fnc1) in [(true, false), (false, false), (true, true), (false, true)] {
             if ctx.mine(item) {
-                eval(ctx, &EncCase { input: input.clone(), list: "default".into(), mask: 63, macros, fnc1, eci: None, order: 0 }, "token_sequences_exhaustive");
+                eval(ctx, &EncCase { input: input.clone(), list: "default".into(), mask: 63, macros, fnc1, eci: None, order: 0, prelude: 0, skipdef: false }, "token_sequences_exhaustive");
             }
             item += 1;
         }
@@ -120,18 +120,40 @@ pub fn run(ctx: &mut Ctx) {
             for start in 0..=1 {
                 if start <= cut && ctx.mine(item) {
                     for mask in [63u8, 62, 32, 2] {
-                        eval(ctx, &EncCase { input: full[start..cut].to_vec(), list: "default".into(), mask, macros: true, fnc1: false, eci: None, order: 0 }, "truncations");
+                        eval(ctx, &EncCase { input: full[start..cut].to_vec(), list: "default".into(), mask, macros: true, fnc1: false, eci: None, order: 0, prelude: 0, skipdef: false }, "truncations");
                     }
                 }
                 item += 1;
             }
         }
     }
-    let n = ctx.budget(200_000, 20_000_000);
+    // builder histories: noise calls before the real ones, defaults left implicit, every order of the real calls
+    {
+        let msgs: Vec<Vec<u8>> = vec![[MACRO05, &b"AB12"[..], TRAIL].concat(), [MACRO06, &b"x"[..], TRAIL].concat(), [MACRO05, &b"AB12"[..]].concat(), b"AB12".to_vec()];
+        for (mi, m) in msgs.iter().enumerate() {
+            for prelude in 0..16u8 {
+                for order in 0..24u8 {
+                    if !ctx.mine(item) {
+                        item += 1;
+                        continue;
+                    }
+                    item += 1;
+                    for (macros, fnc1) in [(true, false), (false, false), (true, true), (false, true)] {
+                        for skipdef in [false, true] {
+                            let mask = if mi % 2 == 0 { 63 } else { 35 };
+                            eval(ctx, &EncCase { input: m.clone(), list: if order % 2 == 0 { "default".into() } else { "all".into() }, mask, macros, fnc1, eci: None, order, prelude, skipdef }, "builder_histories");
+                        }
+                    }
+                }
+            }
+        }
+        ctx.exhaustive.insert("builder_histories_16_preludes_x_24_orders_x_4_option_pairs_x_skipdef".into(), true);
+    }
+    let n = ctx.budget(400_000, 20_000_000);
     for i in 0..n {
         let input = if i % 4 == 3 { inputs::gen_input(&mut ctx.rng, 200) } else { inputs::macro_material(&mut ctx.rng, 60) };
         let (list, mask) = if ctx.rng.chance(1, 2) { ("default".to_string(), 63) } else { (inputs::gen_list_spec(&mut ctx.rng), inputs::gen_mask(&mut ctx.rng)) };
-        let c = EncCase { input, list, mask, macros: !ctx.rng.chance(1, 4), fnc1: ctx.rng.chance(1, 5), eci: None, order: 0 };
+        let c = EncCase { input, list, mask, macros: !ctx.rng.chance(1, 4), fnc1: ctx.rng.chance(1, 5), eci: None, order: ctx.rng.below(24) as u8, prelude: if ctx.rng.chance(1, 2) { 0 } else { ctx.rng.below(16) as u8 }, skipdef: ctx.rng.chance(1, 3) };
         eval(ctx, &c, "generated");
     }
 }
